@@ -41,7 +41,7 @@ CHECKS = [
     dict(pid='C10', cat=MC, design='5/C10',
          technique='TLA+ Omen.tla (Level, pruned LevelSet, declarative LevelSetD) model-checked by TLC over every small OMEN model (two definitions agree); the model space is exported and each model written as real IP/CP/LN.level files; every level drained from the real MarkovCracker under several cache histories is validated by TLC against TrOmen (each string once, only strings of the level, none missing, exhaustion reported)',
          text='TLC is the independent enumerator: for whatever model the real generator was given (model-checked space, random models with n up to 5 incl. all-level-10 boundaries, trainer-produced models) the emitted list must equal LevelSet exactly, for fresh/shared/shuffled/repeated cache histories.',
-         note='The model is read back from the rule files by the harness neutral reader. An implementation-shaped model of the backtracking enumerator (cursors, memo) is not written; the generator is bound by trace validation only.'),
+         note='The model is read back from the rule files by the harness neutral reader. OmenEnum.tla (MarkovCracker cursors, GuessStructure parse-tree backtracking, shared Optimizer memo; one action per next_guess()) is model-checked against LevelSet for every small model, level and second level sharing the memo, and the real generator is stepped call by call with guess, parse tree, cursors and the whole memo compared to the model (TrOmenEnum, drift only).'),
     dict(pid='C18', cat=MC, design='5/C18',
          technique='TLA+ transcription of calc_omen_keyspace/_rec_calc_keyspace (MC_Omen.tla CalcKeyspace, constants FixKeyLen/FixKeyZero) model-checked against Cardinality(LevelSet) for every small model; the real calc_omen_keyspace is called on every exported model and real trainings are compared three ways (omen_keyspace.txt, generator count, TLC cardinality) by TrOmen',
          text='Keyspace exactness is decided on the model for all small models and on the real function for the same models; trained rulesets dominated by n-gram-size passwords or a single length are checked end to end.',
